@@ -235,6 +235,7 @@ def scenario_check(prop, tier, seed, items, evaluate, sig_of, bounds, assumption
     if stream is not None:
         # large families: generated lazily, results folded in as they arrive
         parallel_stream(stream(), make_worker(prop, evaluate, driver_setup, symrun), rep.absorb, chunksize=128)
+    rep.hash_collisions_possible = any(' as Hash>::hash' in p for p in rep.cov_prims)      # the code hashes keys itself
     triage(rep, native, native_evaluator(prop, evaluate), sig_of, natrun=natrun, escalate=escalate)
     if expected_cells is not None:
         missing = set(map(str, expected_cells)) - set(rep.cells)
